@@ -47,7 +47,7 @@ def hostile_leaf(rng):
         if lhs.startswith('(') or lhs.endswith(')') or ':' in lhs or lhs.split(':')[0] in KINDS_OK or not lhs:
             lhs = 'a.' + lhs.strip('()').replace(':', '') + 'x'
         if rng.random() < 0.5:
-            parts = [ev.ph(rng.choice(['t', 'x.y', 'n']))]
+            parts = [ev.ph(rng.choice(['t', 'x.y', 'n', 'x.y', 'n.m', 'x.y.z', 't.']))]
         else:
             rhs = rng.choice(HOSTILE_RHS)
             parts = [rhs]
@@ -61,7 +61,7 @@ def hostile_leaf(rng):
         x = rng.choice(HOSTILE_RHS + HOSTILE_LHS[:40])
         if x.endswith(')') or '%' in x or not x:
             x = 'x'
-        return ev.role(x) if rng.random() < 0.6 else ev.role(ev.ph(rng.choice(['t', 'n', 'missing'])))
+        return ev.role(x) if rng.random() < 0.6 else ev.role(ev.ph(rng.choice(['t', 'n', 'missing', 'x.y', 'n.m'])))
     return rng.choice([ev.T, ev.F, ev.role('r1')])
 
 
@@ -95,7 +95,8 @@ def run(ctx):
         rules = [(n, body(rng, names[i + 1:], rng.choice([1, 1, 2, 3, 5]))) for i, n in enumerate(names)]
         creds = {k: rand_creds_value(rng, rng.randint(0, 3)) for k in rng.sample(['a', 'b', 'c', '0', 'é'], rng.randint(0, 4))}
         creds['roles'] = rng.choice([[], ['r1'], ['x', "'", 'class']])
-        target = {k: rng.choice(TVALS) for k in rng.sample(['t', 'x.y', 'n', 'other'], rng.randint(0, 4))}
+        # (a placeholder name is one flat key, dots and all: the target may also hold its first component)
+        target = {k: rng.choice(TVALS) for k in rng.sample(['t', 'x.y', 'n', 'other', 'x', 'x'], rng.randint(0, 5))}
         for k in range(2):
             qn = rng.choice(names + ['p:zz'])
             call = {'by': 'name', 'name': qn, 'doraise': 1 if rng.random() < 0.3 else 0}
